@@ -100,3 +100,124 @@ REG["C18"] = Spec(
     assumptions=SPAWN_ASSUME,
     explanation="bounded model checking of the child role: at the model exec the mask is empty and SIGPIPE is at default, on every path that reaches exec",
 )
+
+
+LIFE_BOUNDS = {"pre_state": "any state satisfying invariant I (Running{pid} with the model child running / zombie / reaped by someone else; Finished(s) with s = truth or Undetermined)",
+               "status_word": "exit(c) for all c in 0..=255; fatal signal s in 1..=126 with and without core flag",
+               "world": "child may exit and a foreign waiter may reap it at every system call (both switches symbolic)",
+               "operation": "one of poll, wait, wait_timeout(0), send_signal(any i32), terminate, kill, detach, pid/exit_status"}
+LIFE_ENC = ["Popen::{poll,wait,wait_timeout,pid,exit_status,detach,terminate,kill}", "PopenOs::{os_wait,os_wait_timeout,os_terminate,os_kill}",
+            "PopenOsImpl::waitpid", "PopenExt::send_signal", "posix::{waitpid,decode_exit_status,kill,check_err}", "libc::{WIFEXITED,WEXITSTATUS,WIFSIGNALED,WTERMSIG}", "Drop for Popen"]
+LIFE_ASSUME = COMMON_ASSUME[:1] + COMMON_ASSUME[3:] + [
+    "waitpid fails only with ECHILD (child reaped elsewhere); stopped/continued children are not reported (no WUNTRACED)",
+    "io::Error's CustomOwner::outer_drop function pointer pinned; virtual calls restricted by -Z restrict-vtable"]
+
+
+def life_step():
+    return H("popen", "h_life_step", unwind=3, unwindset=[(r"os_wait_timeout", 4)], timeout=1200, bounds=LIFE_BOUNDS, covers=["COVER/wait-on-running"])
+
+
+def life_seq():
+    b = dict(LIFE_BOUNDS)
+    b["operation"] = "three operations in sequence from Running (needs no invariant)"
+    return H("popen", "h_life_seq", unwind=3, unwindset=[(r"os_wait_timeout", 4)], timeout=3600, mem_gb=24, bounds=b)
+
+
+def life_drop():
+    return H("popen", "h_life_drop", unwind=3, timeout=1200, bounds=LIFE_BOUNDS)
+
+
+REG["C09"] = Spec(
+    quick=[life_step(), life_drop()],
+    thorough=[life_step(), life_drop(), life_seq()],
+    encodes=LIFE_ENC,
+    bounds={"quick": "inductive step: one symbolic operation from every state satisfying invariant I; all exit codes 0..=255 and signals 1..=126", "thorough": "plus every sequence of three operations from Running"},
+    outside="waitpid returning a different pid than asked; stopped children; Windows",
+    assumptions=LIFE_ASSUME,
+    explanation="inductive step over API histories: symbolic pre-state constrained by invariant I, one real operation against a model child that may exit / be reaped by a foreign waiter at every system call; I and the reported-status oracle asserted afterwards",
+)
+REG["C10"] = Spec(
+    quick=[life_step()],
+    thorough=[life_step(), life_seq()],
+    encodes=LIFE_ENC,
+    bounds={"quick": "one signalling call (any i32 signal number, SIGTERM, SIGKILL) from every state satisfying invariant I; kill() succeeds or fails", "thorough": "plus sequences of three operations where reaping and signalling interleave"},
+    outside="Windows TerminateProcess path",
+    assumptions=LIFE_ASSUME,
+    explanation="the model kill() logs (pid, signal) and asserts the pid was not reaped by this Popen; harness asserts exactly one kill with the requested signal while Running, none once Finished",
+)
+
+
+def wait_h(name, uw, b):
+    return H("popen", name, unwind=3, unwindset=[(r"os_wait_timeout", uw)], timeout=3000, mem_gb=20, bounds=b,
+             covers=["COVER/wait-timeout-exited"] + (["COVER/wait-timeout-expired"] if "small" in name else []))
+
+
+WB = {"clock": "virtual monotonic clock, start any (sec < 2^40, nsec); advances only in sleeps (no drift)", "child": "exits at any status check or never; pre-state any (also already Finished)"}
+REG["C11"] = Spec(
+    quick=[life_step(),
+           wait_h("h_wait_small", 7, dict(WB, d="0..=20 ms, nanosecond resolution (doubling phase 1,2,4,8 ms + clipped last sleep)")),
+           wait_h("h_wait_large", 7, dict(WB, d="1 s .. 2^40 s; child exits within the first 4 back-off intervals"))],
+    thorough=[life_step(),
+              wait_h("h_wait_small_t", 12, dict(WB, d="0..=420 ms (whole doubling phase 1..64 ms and three steady-state 100 ms iterations)")),
+              wait_h("h_wait_large_t", 12, dict(WB, d="1 s .. 2^40 s; child exits within the first 9 back-off intervals"))],
+    encodes=["Popen::{poll,wait_timeout}", "PopenOs::os_wait_timeout", "PopenOsImpl::waitpid", "std::time::{Instant,Duration} arithmetic", "std::thread::sleep"],
+    bounds={"quick": "d in [0,20 ms] complete; d in [1 s, 2^40 s] for the first 4 iterations", "thorough": "d in [0,420 ms] complete; large d for the first 9 iterations (steady state reached: later iterations repeat the 100 ms body)"},
+    outside="real scheduler oversleep (the model sleeps exactly); 'still running' for d > 420 ms (needs more iterations than the bound; the loop body is uniform from the 8th iteration on); Windows WaitForSingleObject",
+    assumptions=LIFE_ASSUME + ["the clock advances only while sleeping (zero drift between clock reads)"],
+    explanation="virtual clock: time is a symbolic variable; the model nanosleep asserts each requested sleep is <= 100 ms, never passes the deadline, is >= 1 ms unless it ends exactly at the deadline, and doubles; at return None implies now >= deadline; number of status checks <= sleeps + 1",
+)
+REG["C12"] = Spec(
+    quick=[life_drop(), spawn_parent_h()],
+    encodes=["Drop for Popen", "Popen::detach", "PopenOs::os_wait", "Popen::create (parent role)"],
+    bounds="drop of a bare Popen from every state satisfying invariant I (detached or not); drop right after a successful create for every stream configuration",
+    outside="the stream adapters and join/capture terminators (adapter harnesses: see level_note / DESIGN.md)",
+    assumptions=LIFE_ASSUME,
+    explanation="drop of a non-detached Popen ends with its child reaped; drop of a detached Popen makes no wait call and does not reap",
+)
+C06_B = {"argv": "[\"/p\", a] with a of concrete length 0, 1, 2 over all 255 non-NUL byte values per position; argv of 1 element; optional executable override", "nul": "a NUL at any position of a 1- or 2-byte argument"}
+REG["C06"] = Spec(
+    quick=[H("popen", n, unwind=3, unwindset=SPAWN_UW + [(r"mk::proc_::c(str_eq|06_checks)", 8), (r"memchr", 6)], timeout=1500, bounds=C06_B)
+           for n in ("h_argv_s2", "h_argv_s1", "h_argv_e", "h_argv_none", "h_argv_nul_s2", "h_argv_nul_s1", "h_ident")],
+    encodes=["Popen::create", "PopenOs::os_start", "PopenOsImpl::do_exec", "posix::{os_to_cstring,CVec::new,CVec::as_c_vec,prep_exec,PrepExec::{new,exec,assemble_exe,libc_exec},setuid,setgid,setpgid}", "std::env::set_current_dir"],
+    bounds="argument vectors of 1..=2 entries, the symbolic entry of length 0..=2 over all non-NUL bytes (so empty, blank, quote and non-UTF-8 arguments are in); NUL anywhere; cwd of 2 symbolic bytes; setuid/setgid any u32 (uid != 0), each present or absent, setpgid on/off; parent is root",
+    outside="vectors of 3+ arguments and arguments of 3+ bytes (SAT back end out of memory at 14 GB, measured); the environment de-duplication (format_env over HashSet/SipHash: CBMC does not finish in 20 min even with concrete names, measured) -- only 'environment unspecified => execv (inherit)' is decided; Windows format_env_block",
+    assumptions=SPAWN_ASSUME + ["credentials follow POSIX: setuid as root sets all three ids; setgid needs euid 0 or a matching real/saved gid"],
+    explanation="child role: the model exec compares the argv array, program path, cwd and credentials it receives with the harness's own copy of the request",
+)
+
+
+POSIX_UW = [(r"vh_posix::(lookup_all_masks|h_alloc_path)", 18), (r"vh_posix::", 14), (r"strlen", 8), (r"memchr", 8), (r"memcmp", 8), (r"posix::split_path", 8),
+            (r"position", 8), (r"PrepExec", 6), (r"mk::proc_::exec_common", 14)]
+LK_B = {"PATH": "every string of exactly n bytes over {':', 'd'} (shape case-split inside the harness, all 2^n shapes), n = 1..=4", "command": "\"c\" or \"cc\"",
+        "candidate_fate": "each of up to 3 candidates: starts / ENOENT / EACCES / ENOTDIR (symbolic)"}
+
+
+def lookup_h(n):
+    return H("posix", "h_lookup_%d" % n, unwind=3, unwindset=POSIX_UW, timeout=1500, bounds=dict(LK_B, n=n))
+
+
+REG["C15"] = Spec(
+    quick=[H("posix", "h_split", unwind=3, unwindset=POSIX_UW, timeout=900, covers=["COVER/three-path-entries", "COVER/only-empty-entries"],
+             bounds={"PATH": "every byte string of length 0..=5 over all 256 byte values"}),
+           lookup_h(1), lookup_h(2), lookup_h(3),
+           H("posix", "h_lookup_nosearch", unwind=3, unwindset=POSIX_UW, timeout=900, covers=["COVER/no-search"],
+             bounds={"cases": "name with leading slash, name with embedded slash, PATH unset, PATH empty, PATH=\"d:\" through the real prep_exec"})],
+    thorough=[H("posix", "h_split", unwind=3, unwindset=POSIX_UW, timeout=900), lookup_h(1), lookup_h(2), lookup_h(3), lookup_h(4),
+              H("posix", "h_lookup_nosearch", unwind=3, unwindset=POSIX_UW, timeout=900)],
+    encodes=["posix::split_path", "posix::prep_exec", "posix::PrepExec::{new,exec,assemble_exe,libc_exec}", "posix::CVec::new"],
+    bounds="tokenizer: all byte strings up to 5 bytes; lookup: all PATH shapes up to 3 (quick) / 4 (thorough) bytes = up to 2-3 entries incl. empty, duplicate and only-empty entries, every combination of candidate fates",
+    outside="very long entries (buffer sizing is C17's harness); PATH bytes other than ':'/'d' in the lookup harnesses (arbitrary bytes are covered for the tokenizer only); the executable override (os_start passes it as cmd: same function); std::env::var_os is stubbed by a model environment in h_lookup_nosearch (std's implementation exhausts the SAT back end, measured)",
+    assumptions=COMMON_ASSUME[:1] + COMMON_ASSUME[3:] + ["exec of a candidate either starts it or fails with ENOENT/EACCES/ENOTDIR"],
+    explanation="the model exec records every candidate path and answers from a symbolic per-candidate verdict; asserted: candidate sequence = <entry>/<name> for the non-empty entries in order, each once, stop at the first that starts, Err with the last candidate's errno when none starts, never Ok without exec",
+)
+REG["C17"] = Spec(
+    quick=[H("popen", "h_alloc_witness", unwind=3, timeout=300),
+           H("popen", "h_alloc_child", unwind=3, unwindset=SPAWN_UW, timeout=1800, bounds=dict(SPAWN_BOUNDS, child_steps="no failure, or the k-th of chdir/dup2/setuid/setgid/setpgid/exec fails (k symbolic)", cwd="absent or \"/d\"")),
+           H("posix", "h_alloc_path", unwind=3, unwindset=POSIX_UW, timeout=1500, covers=["COVER/two-candidates-assembled"],
+             bounds={"PATH": "all 16 shapes of 4 bytes over {':','d'} (longest entry first/last, only empty entries)", "command": "\"cc\"", "fates": "symbolic"})],
+    encodes=["PopenOs::os_start (child branch)", "PopenOsImpl::do_exec", "posix::PrepExec::{exec,assemble_exe,libc_exec}", "posix::reset_sigpipe", "error report path (write_all to the status pipe, _exit)", "std::env::set_current_dir"],
+    bounds="every stream configuration; success and each child-side step failing; PATH shapes of 4 bytes; cwd short (stack buffer path of std's run_with_cstr)",
+    outside="cwd of 384+ bytes (std allocates a CString for long paths -- in std, not in the crate); deallocation is not counted; allocation inside libc calls",
+    assumptions=SPAWN_ASSUME + ["observer: std::alloc::{alloc,alloc_zeroed,realloc} stubbed by counting wrappers delegating to System (h_alloc_witness proves Vec/Box/CString/Rc/Vec-growth move the counter in this build)"],
+    explanation="the model fork snapshots an allocation counter in child role; every later model call (each child-side step, exec, the error report write, _exit) asserts the counter has not moved",
+)
